@@ -26,7 +26,11 @@
                             explicit). The oracle renders it (Layout.r_prog) and parses the tokens.
                             -> "PARSED same=<true|false> <tree>" (same: the tree equals the erasure
                                Layout.er_prog of the decorated tree), "REJECT", "FUEL".
-     PROG   ::= (prog INNER (root BL COL STMT) ...)        INNER: column of all inner tokens
+     PROG   ::= (prog INNER ROOTITEM ...)                  INNER: column of all inner tokens
+     ROOTITEM ::= (root BL COL STMT)                                    a root let
+              | (union BL COL NAME BL COL (TOK ...) ((BL COL (TOK ...)) ...))    type NAME = EOLs | case0 | case ...
+              | (info BL COL NAME BL COL (TOK ...) ((BL COL (TOK ...)) ...))     package_info NAME = EOLs let d0 / let d ...
+              | (line BL COL K (TOK ...))                               package (K 0) / import (K 1) line
      STMT   ::= (let X same EXPR) | (let X (next BL COL) EXPR) | (letfn F P (PS ...) BODY) | (expr EXPR)
               | (letd X Y (ZS ...) BRK EXPR)                          let (x, y, zs...) = e
      EXPR   ::= (t TERM) | (op ATOM ((COL ATOM) ...) BRK O EXPR)          BRK ::= same | (next BL COL)
@@ -221,10 +225,18 @@ and sarms_of = function
   | [L [A "sarm"; c; L [A "var"; v]; b; _]] -> SLast (nat_of c, Some (nat_of v), body_of b)
   | L [A "sarm"; c; L [A "lit"; s]; b; bl] :: r -> SCons (nat_of c, nat_of s, body_of b, nat_of bl, sarms_of r)
   | _ -> raise (Parse_error "sarms")
+let line_of = function
+  | L [bl; c; L toks] -> ((nat_of bl, nat_of c), List.map nat_of toks)
+  | _ -> raise (Parse_error "line")
 let prog_of = function
   | L (A "prog" :: inner :: roots) ->
     (nat_of inner, List.map (function
-         | L [A "root"; bl; c; s] -> ((nat_of bl, nat_of c), stmt_of s)
+         | L [A "root"; bl; c; s] -> ((nat_of bl, nat_of c), RLetL (stmt_of s))
+         | L [A "union"; bl; c; name; b0; c0; L case0; L cases] ->
+           ((nat_of bl, nat_of c), RUnionL (nat_of name, nat_of b0, nat_of c0, List.map nat_of case0, List.map line_of cases))
+         | L [A "info"; bl; c; name; b0; c0; L d0; L defs] ->
+           ((nat_of bl, nat_of c), RInfoL (nat_of name, nat_of b0, nat_of c0, List.map nat_of d0, List.map line_of defs))
+         | L [A "line"; bl; c; k; L toks] -> ((nat_of bl, nat_of c), RLineL (nat_of k, List.map nat_of toks))
          | _ -> raise (Parse_error "root")) roots)
   | _ -> raise (Parse_error "prog")
 
